@@ -12,6 +12,11 @@ from . import checklib, explore, monitor
 def judge_results(prop, pairs, prefixes=None):
     """pairs: [(case, result)].  Returns (findings, stats)."""
     prefixes = tuple(prefixes or (prop + "_",))
+    # scenarios of the families are legal: one that cannot be BUILT (World / start / connect raising) is reported - as drift, the
+    # scheduling clauses have nothing to judge - instead of being dropped silently (a ScenarioError of connect() is C11's subject)
+    unbuilt = [(c, r) for c, r in pairs if r["outcome"].get("phase") == "build"]
+    for c, r in unbuilt[:3]:
+        print(f"DRIFT scenario could not be built case={json.dumps(c.get('id'))[:100]} error={r['outcome']['r']}: {r['outcome']['msg'][:120]} (not a verdict)")
     pairs = [(c, r) for c, r in pairs if r["outcome"].get("phase") != "build"]
     items = [r["item"] for _, r in pairs]
     verdicts, info = monitor.judge(items)
@@ -50,6 +55,7 @@ def judge_results(prop, pairs, prefixes=None):
         "distinct_nontrivial": len(nontrivial),
         "stats": dict(stats),
         "all_clauses_seen": dict(clause_count),
+        "scenarios_not_built": len(unbuilt),
         "protocol_drift": proto_drift[:10],
         "protocol_drift_count": len(proto_drift),
         "monitor": info,
